@@ -186,11 +186,18 @@ def do_fixture(case, ctx, site, action):
 
 
 def do_handlers(case, ctx, site, action):
+    # handler 0 was registered on the instance before run() (see execute); the others in setUp
+    for i in range(1, action[1]):
+        case.addOnException(_make_handler(ctx, i))
+
+
+def _make_handler(ctx, i):
     shared = ctx.extra["shared_log"]
-    for i in range(action[1]):
-        def h(exc_info, i=i):
-            shared.append(("handler", i, _exc_text(exc_info[1])))
-        case.addOnException(h)
+
+    def h(exc_info):
+        shared.append(("handler", i, _exc_text(exc_info[1])))
+
+    return h
 
 
 def _exc_text(e, depth=0):
@@ -251,6 +258,9 @@ def execute(cfg, chooser):
     shared = []
     ctx.extra["shared_log"] = shared
     case = pg.new_case(config, ctx)
+    if cfg[3]:
+        # registered by whoever built the test (a loader, a decorator, __init__), before run()
+        case.addOnException(_make_handler(ctx, 0))
     result = rec.Ext(log=shared, read_details=True)
     try:
         case.run(result)
